@@ -231,8 +231,18 @@ def run(chk):
         Xw = g.normal(size=(nw, Dw)) @ (g.normal(size=(Dw, Dw)) + 2 * np.eye(Dw)) + 3
         yw = np.array([k % 2 for k in range(nw)])
 
+        # generator precondition: the projections invert the (within-class) covariance, so two float routes agree only to cond * eps; a draw
+        # whose mixing matrix is nearly singular (condition number of a covariance above 300) is not compared (the random stream is unchanged)
+        def _cond(S):
+            ev = np.linalg.eigvalsh(S)
+            return float(ev[-1] / max(ev[0], 1e-300))
+        Sw_ = sum(np.cov(Xw[yw == c_].T, bias=True) * np.sum(yw == c_) for c_ in (0, 1)) / nw
+        ok_w = max(_cond(np.cov(Xw.T)), _cond(Sw_)) < 300.0
+        if not ok_w:
+            chk.count(1, key=("Whitening/WCCN draw with an ill-conditioned covariance: not compared",))
+
         def w_cmp(a, b):
-            return None if all(close(x, y, rtol=1e-7, atol=1e-8) for x, y in zip(a, b)) else "projection"
+            return None if (not ok_w) or all(close(x, y, rtol=1e-7, atol=1e-8) for x, y in zip(a, b)) else "projection"
         explore("Whitening", nw, Dw, lambda: (np.asarray(Whitening().fit(Xw).weights), np.asarray(Whitening().fit(Xw).input_subtract)),
                 lambda ch: (lambda wh: (np.asarray(wh.weights), np.asarray(wh.input_subtract)))(Whitening().fit(da.from_array(Xw, chunks=(ch[0], (Dw,))))), w_cmp)
         # the same on features with a common offset 1e5 times their spread (a time stamp, a temperature in Kelvin): both routes centre before
@@ -243,7 +253,7 @@ def run(chk):
             cn_, cd_ = WCCN().fit(Xo, yw), WCCN().fit(da.from_array(Xo, chunks=(rows_o, (Dw,))), yw)
             chk.count(1, key=("Whitening/WCCN, large common offset", len(rows_o)))
             for nm_, a_, b_ in (("Whitening", wn_.weights, wd_.weights), ("WCCN", cn_.weights, cd_.weights)):
-                if not close(np.asarray(a_), np.asarray(b_), rtol=1e-7, atol=1e-8):
+                if ok_w and not close(np.asarray(a_), np.asarray(b_), rtol=1e-7, atol=1e-8):
                     chk.fail("%s on a Dask array (row blocks %s) differs from the in-memory result for features with a common offset 1e5 times their spread (largest relative difference %.3g)"
                              % (nm_, rows_o, float(np.abs(np.asarray(a_) - np.asarray(b_)).max() / np.abs(np.asarray(a_)).max())),
                              {"X": hexlist(Xo), "y": [int(q) for q in yw], "row_chunks": list(rows_o), "trainer": nm_})
